@@ -285,6 +285,43 @@ func init() {
 					}
 				}
 			}
+			// the attributes of one service spread over files: getter in one, must_getter (and the creation method) in another,
+			// in both orders; the merged service is what counts
+			for oi, order := range [][]int{{0, 1, 2}, {2, 1, 0}, {1, 0, 2}, {1, 2, 0}} {
+				for must := 0; must < 3; must++ {
+					oi, order, must := oi, order, must
+					w.Case(fmt.Sprintf("split-files/order%d/must=%d", oi, must), func(c *C) {
+						getBase()
+						parts := []*Cfg{
+							{Meta: stdMeta(), Services: []Service{{Name: "sut", Getter: P("FetchSut")}}},
+							{Services: []Service{{Name: "sut", MustGetter: tri(must)}}},
+							{Services: []Service{{Name: "sut", Constructor: P("pk.New")}, {Name: "plain", Constructor: P("pk2.New")}}},
+						}
+						var files []File
+						for k, pi := range order {
+							files = append(files, File{fmt.Sprintf("%d.yaml", k), parts[pi].YAML()})
+						}
+						br := w.Build(files)
+						c.Distinct("all", c.ID)
+						c.Distinct("nontrivial", c.ID)
+						if !br.OK() {
+							c.Violation("valid-rejected:split-files", "a service whose getter, must_getter and constructor come from three files is rejected:\n"+strings.Join(ErrorLines(br.Out), "\n")+br.Panic, FilesMap(files), nil)
+							return
+						}
+						gi := Analyze(w.TC(false), br.Output, nil)
+						want := c13expectMethods(base, "FetchSut", "interface{}", must == 1)
+						got := map[string]string{}
+						for k, m := range gi.Methods {
+							if isExported(k) {
+								got[k] = m
+							}
+						}
+						if d := diffMaps(want, got); d != "" || len(gi.Errs) > 0 {
+							c.Violation("method-set:split-files", "method set differs when the attributes come from several files:\n"+d+strings.Join(gi.Errs, "\n"), FilesMap(files), nil)
+						}
+					})
+				}
+			}
 			// equal getters on services that are not neighbours in name order, with other getters / getter-less / todo services
 			// between them; getters that differ in surrounding white space only
 			for li, layout := range [][]string{{"G", "G"}, {"G", "O", "G"}, {"G", "", "G"}, {"G", "T", "G"}, {"O", "G", "O", "G"}, {"G", "O", "P", "G"}, {"G", "O", "G", "O"}, {"G", "G\n"}, {"G", " G"}, {"G", "O", "G\t"}, {"G\n", "G\n"}} {
@@ -438,6 +475,13 @@ func init() {
 				{"decorated-untyped", Service{Constructor: P("pk.New"), Tags: []Tag{{Name: "dtag"}}}, false},
 				{"shared-explicit", Service{Constructor: P("pk.New"), Type: P("*pk.Obj"), Scope: P("shared")}, false},
 				{"shared-explicit-untyped", Service{Constructor: P("pk.New"), Scope: P("shared"), Args: []any{"@helper"}}, false},
+				{"value-nonshared-decorated", Service{Value: P("&pk.Obj{}"), Scope: P("non_shared"), Tags: []Tag{{Name: "dtag"}}}, false},
+				{"value-shared-decorated", Service{Value: P("pk.Var"), Tags: []Tag{{Name: "dtag"}}}, false},
+				{"value-contextual-plain", Service{Value: P("&pk.Obj{}"), Scope: P("contextual"), Type: P("*pk.Obj")}, false},
+				{"value-nonshared-typed", Service{Value: P("&pk.Obj{}"), Scope: P("non_shared"), Type: P("*pk.Obj")}, false},
+				{"type-only-nonshared", Service{Type: P("pk2.Val"), Scope: P("non_shared"), Fields: []KV{{"F1", "x"}}}, false},
+				{"named-string-type-from-a-string", Service{Constructor: P("pk.NewStr"), Args: []any{"x", 1}, Type: P("pk.Str")}, false},
+				{"named-string-type-other-package", Service{Constructor: P(`"fx/pk".NewStr`), Type: P("pk2.Str"), Scope: P("non_shared")}, false},
 				{"contextual", Service{Constructor: P("pk.New"), Type: P("*pk.Obj"), Scope: P("contextual")}, false},
 				{"inferred-contextual", Service{Constructor: P("pk.New"), Type: P("*pk.Obj"), Args: []any{"@ctxDep"}}, false},
 				{"inferred-contextual-untyped", Service{Constructor: P("pk.New"), Fields: []KV{{"F1", "@ctxDep"}}}, false},
